@@ -126,6 +126,11 @@ ParamAtoms ==
     \* a binary string parameter with one more keyword (in quick too; FieldK = 2 sweeps all such pairs)
     Atom("param", "q@op:binary&maxLength", "param:op:query:q", "op", "",
          Prm("query", "q", FALSE, KV("type", S("string")) @@ KV("format", S("binary")) @@ KV("maxLength", I(5))), Nul, 2),
+    \* x-nullable as an extension of a non-body parameter, and inside its items
+    Atom("param", "q@op:xnullable", "param:op:query:q", "op", "", Prm("query", "q", FALSE, KV("type", S("string")) @@ KV("x-nullable", B(TRUE))), Nul, 2),
+    Atom("param", "q@shared:xnullable", "param:op:query:q", "shared", "P_q", Prm("query", "q", FALSE, KV("type", S("integer")) @@ KV("x-nullable", B(TRUE))), Nul, 2),
+    Atom("param", "q@op:items.xnullable", "param:op:query:q", "op", "",
+         Prm("query", "q", FALSE, KV("type", S("array")) @@ KV("items", O(KV("type", S("string")) @@ KV("x-nullable", B(TRUE))))), Nul, 2),
     Atom("param", "q2@op:boolean", "param:op:query:a2", "op", "", Prm("query", "a2", FALSE, KV("type", S("boolean"))), Nul, 1),
     Atom("param", "body@query", "param:op2:query:body", "op2", "", Prm("query", "body", FALSE, KV("type", S("string"))), Nul, 1),
     \* both names FromV3 tries for a body parameter are taken by query parameters (x carries the second parameter)
@@ -141,6 +146,7 @@ FormAtoms ==
    \cup {Atom("form", "f1@shared:" \o p.id, "form:f1", "shared", "F_f1", Prm("formData", "f1", FALSE, p.f), Nul,
               IF p.id = "string.enum" THEN 2 ELSE 3) : p \in PL(1)}
    \cup {Atom("form", "f1@op:required", "form:f1", "op", "", Prm("formData", "f1", TRUE, KV("type", S("string")) @@ KV("minLength", I(1))), Nul, 1),
+         Atom("form", "f1@op:xnullable", "form:f1", "op", "", Prm("formData", "f1", FALSE, KV("type", S("string")) @@ KV("x-nullable", B(TRUE))), Nul, 2),
          Atom("form", "f2@op:integer", "form:f2", "op", "", Prm("formData", "f2", FALSE, KV("type", S("integer")) @@ KV("maximum", I(9))), Nul, 1),
          Atom("form", "f3@op:required", "form:f3", "op", "", Prm("formData", "f3", TRUE, KV("type", S("boolean"))), Nul, 2),
          Atom("form", "file@op", "form:file", "op", "", Prm("formData", "file", FALSE, KV("type", S("file"))), Nul, 2),
@@ -191,6 +197,7 @@ ObjSchemas ==
     Sc("nested", O(TObj @@ PropA(O(TObj @@ KV("required", A(<<S("b")>>))
                                    @@ KV("properties", O(KV("b", O(KV("type", S("string")) @@ KV("minLength", I(1))))))))), 2),
     Sc("propBinary", O(TObj @@ PropA(O(KV("type", S("string")) @@ KV("format", S("binary"))))), 2),
+    Sc("itemsNullable", O(KV("type", S("array")) @@ KV("items", O(KV("type", S("string")) @@ KV("x-nullable", B(TRUE))))), 2),
     Sc("propNullable", O(TObj @@ PropA(O(KV("type", S("string")) @@ KV("x-nullable", B(TRUE))))), 2),
     Sc("propDiscriminator", O(TObj @@ PropA(O(TObj @@ KV("discriminator", S("kind")) @@ KV("required", A(<<S("kind")>>))
                                               @@ KV("properties", O(KV("kind", StrSchema)))))), 2)}
@@ -220,6 +227,15 @@ BodyAtoms ==
     Atom("body", "body:refRequired", "body", "op", "", BodyPrm("payload", TRUE, PetRef), Nul, 1),
     Atom("body", "body:shared", "body", "shared", "B1", BodyPrm("body", TRUE, PetRef), Nul, 1),
     Atom("body", "body:sharedInline", "body", "shared", "B1", BodyPrm("thing", FALSE, ObjBody), Nul, 2),
+    \* x-nullable inside an inline body schema (top level, property, items), to be combined with several media types:
+    \* ToV3 shares one schema between the media types of a body and FromV3 converts it once per media type
+    Atom("body", "body:xnull.top", "body", "op", "", BodyPrm("body", FALSE, O(TObj @@ KV("x-nullable", B(TRUE)) @@ PropA(StrSchema))), Nul, 1),
+    Atom("body", "body:xnull.prop", "body", "op", "", BodyPrm("body", TRUE,
+         O(TObj @@ KV("properties", O(KV("a", O(KV("type", S("string")) @@ KV("x-nullable", B(TRUE)))) @@ KV("b", O(KV("type", S("integer")))))))), Nul, 1),
+    Atom("body", "body:xnull.items", "body", "op", "", BodyPrm("body", FALSE,
+         O(KV("type", S("array")) @@ KV("items", O(KV("type", S("string")) @@ KV("x-nullable", B(TRUE)))))), Nul, 1),
+    Atom("body", "body:shared.xnull", "body", "shared", "B1", BodyPrm("body", FALSE,
+         O(TObj @@ PropA(O(KV("type", S("string")) @@ KV("x-nullable", B(TRUE)))))), Nul, 1),
     Atom("body", "body:arrayOfRef", "body", "op", "", BodyPrm("body", TRUE, O(KV("type", S("array")) @@ KV("items", PetRef))), Nul, 2)}
 
 Hdr(f) == O(f)
@@ -230,6 +246,12 @@ RespAtoms ==
          IF p.id = "integer.minimum" THEN 1 ELSE IF p.nk <= 1 THEN 2 ELSE 3) : p \in PL(FieldK)}
    \cup
    {Atom("resp", "404:ref", "resp:404", "op", "404", RespObj("not found", PetRef), Nul, 1),
+    Atom("resp", "200:xnull.prop", "resp:200", "op", "200", RespObj("fine",
+         O(TObj @@ KV("x-nullable", B(TRUE)) @@ PropA(O(KV("type", S("string")) @@ KV("x-nullable", B(TRUE)))))), Nul, 1),
+    Atom("resp", "default:shared.xnull", "resp:default", "shared", "default", RespObj("problem",
+         O(KV("type", S("array")) @@ KV("items", O(KV("type", S("string")) @@ KV("x-nullable", B(TRUE)))))), Nul, 2),
+    Atom("resp", "200.header:xnullable", "resp:200", "op", "200",
+         O(KV("description", S("fine")) @@ KV("headers", O(KV("X-Rate", Hdr(KV("type", S("string")) @@ KV("x-nullable", B(TRUE))))))), Nul, 2),
     Atom("resp", "404:plain", "resp:404", "op", "404", O(KV("description", S("not found"))), Nul, 2),
     Atom("resp", "default:shared", "resp:default", "shared", "default",
          O(KV("description", S("problem")) @@ KV("schema", PetRef) @@ KV("headers", O(KV("X-Why", Hdr(KV("type", S("string"))))))), Nul, 1),
@@ -286,14 +308,20 @@ Mt(id, w, ss, c) == Atom(IF id[1] = "c" THEN "consumes" ELSE "produces", id[2] \
 MediaAtoms ==
    {Mt(<<"c", "consumes:json", "json">>, "op", <<"application/json">>, 1),
     Mt(<<"c", "consumes:xml", "json">>, "op", <<"application/xml">>, 2),
-    Mt(<<"c", "consumes:json+xml", "json">>, "op", <<"application/json", "application/xml">>, 2),
+    Mt(<<"c", "consumes:json+xml", "json">>, "op", <<"application/json", "application/xml">>, 1),
+    Mt(<<"c", "consumes:xml+json", "json">>, "op", <<"application/xml", "application/json">>, 2),
+    Mt(<<"c", "consumes:json+xml+yaml", "json">>, "op", <<"application/json", "application/xml", "application/x-yaml">>, 1),
+    Mt(<<"c", "consumes:json+xml", "json">>, "doc", <<"application/json", "application/xml">>, 1),
+    Mt(<<"c", "consumes:json+xml+yaml", "json">>, "doc", <<"application/json", "application/xml", "application/x-yaml">>, 2),
     Mt(<<"c", "consumes:json", "json">>, "doc", <<"application/json">>, 2),
     Mt(<<"c", "consumes:urlencoded", "urlenc">>, "op", <<"application/x-www-form-urlencoded">>, 1),
     Mt(<<"c", "consumes:multipart+urlencoded", "both">>, "op", <<"multipart/form-data", "application/x-www-form-urlencoded">>, 2),
     Mt(<<"c", "consumes:multipart", "multi">>, "doc", <<"multipart/form-data">>, 2),
     Mt(<<"p", "produces:json", "json">>, "op", <<"application/json">>, 2),
     Mt(<<"p", "produces:xml", "xml">>, "op", <<"application/xml">>, 1),
-    Mt(<<"p", "produces:json+xml", "json">>, "op", <<"application/json", "application/xml">>, 2),
+    Mt(<<"p", "produces:json+xml", "json">>, "op", <<"application/json", "application/xml">>, 1),
+    Mt(<<"p", "produces:xml+json+yaml", "json">>, "op", <<"application/xml", "application/json", "application/x-yaml">>, 2),
+    Mt(<<"p", "produces:json+xml", "json">>, "doc", <<"application/json", "application/xml">>, 2),
     Mt(<<"p", "produces:xml", "xml">>, "doc", <<"application/xml">>, 2)}
 
 MethodAtoms ==
